@@ -154,6 +154,17 @@ def gen(rng, thorough):
             for v in ("<x/>", "a<x>b<y /></x>", "u", "<x><y><z/></y></x>", ""):
                 cases.append(("xe", chain, "", "//a[not(*)]", v))
             cases.append(("xq", chain, "", "//a[not(*)]", ""))
+    # elements whose ONLY child is a reference (the tools read the text-expanded view, where it is a text node like any other), and
+    # general entities that are reached more than once in one expansion - twice in one replacement text, along two paths of a
+    # diamond - which is no cycle (round-9 seeds C17-M: a lone reference handed out unexpanded; C17-N: a second visit reported
+    # as "refers to itself")
+    for dd in ("<r><t>&amp;</t><t>&#65;</t><t>&lt;x</t><u><![CDATA[z]]></u><t>a</t><t>&#x42;&#67;</t></r>",
+               "<!DOCTYPE r [<!ENTITY s 'k'><!ENTITY d '&s;-&s;'><!ENTITY w '&s;+&d;'>]><r><i>&d;</i><j>&w;</j><i t='&d;'>&s;</i><t>&s;</t></r>"):
+        for e in ("//t[.='&']", "string(/r/t[1])", "//t[.='A']", "//t", "//u", "//i[.='k-k']", "string(/r/j)", "//i[@t='k-k']", "//i", "//t/text()",
+                  "count(//text())", "//t[.='k']", "string(/r)", "//*[not(*)][string-length() = 1]", "//i/@t"):
+            cases.append(("xq", dd, XP.BINDINGS, e, ""))
+            for v in ("z", "<k/>"):
+                cases.append(("xe", dd, XP.BINDINGS, e, v))
     # attributes supplied by attribute-list defaults
     for dd in DEFDOCS:
         for e in DEFSEL:
